@@ -35,6 +35,7 @@ import RV.Base.Proto
     jstr-loads <s>*             -> = (ok:<s> | err:<Kind>)*       jsonLoadsStr on whole string tokens
     jstr-spell (<s>/<k.k.k|->)* -> = <s>*                         '"' ++ jsonSpell ks s ++ '"'
     xtext-write <s>*            -> = <s>*                         xmlWriteText (character data as `_characters` spells it)
+    xdoc-texts-ascii <s>*       -> XTEXT <s>*                     xmlWriteTextEnc encAscii (what `encoding="ascii"` makes of character data)
     xattr-write <s>*            -> = <s>*                         quoteattr (quotes included)
     xdoc-texts / xdoc-attrs <s>* -> XTEXT <s>* / XATTR <s>*        the same, for the harness to assemble a document from
     xtext-read <s>*             -> = (ok:<s> | err:ParseError)*   xmlReadContent on the character data of one element
@@ -334,6 +335,8 @@ def step (_ : Unit) : List String → Unit × String
   | "xtext-write" :: ws => ((), mapStrs "=" ws (fun s => encStr (xmlWriteText s)))
   | "xattr-write" :: ws => ((), mapStrs "=" ws (fun s => encStr (quoteattr s)))
   | "xdoc-texts" :: ws => ((), mapStrs "XTEXT" ws (fun s => encStr (xmlWriteText s)))
+  | "echo" :: ws => ((), " ".intercalate ws)
+  | "xdoc-texts-ascii" :: ws => ((), mapStrs "XTEXT" ws (fun s => encStr (xmlWriteTextEnc encAscii s)))
   | "xdoc-attrs" :: ws => ((), mapStrs "XATTR" ws (fun s => encStr (quoteattr s)))
   | "xtext-read" :: ws => ((), mapStrs "=" ws (fun s =>
       match xmlReadContent (s ++ ['<']) with
